@@ -117,13 +117,15 @@ def _sections(draw, max_ticks):
         lanes = [i for i in range(5) if mask >> i & 1]
         if len(lanes) > 1 and draw(st.booleans()):
             lanes = draw(st.permutations(lanes))
-        glines = [[tick, "N", OPEN, 0]] if mask == 0 else [[tick, "N", i, 0] for i in lanes]
+        # lengths vary too (they must not influence grouping or lanes)
+        ln_st = st.sampled_from([0, 0, 0, 1, 5, 1000])
+        glines = [[tick, "N", OPEN, draw(ln_st)]] if mask == 0 else [[tick, "N", i, draw(ln_st)] for i in lanes]
         fl = draw(st.integers(0, 11))
         flags = []
         if fl in (8, 10) and g > 0:
-            flags.append([tick, "N", FORCED, 0])
+            flags.append([tick, "N", FORCED, draw(st.sampled_from([0, 0, 7]))])
         if fl in (9, 10, 11):
-            flags.append([tick, "N", TAP, 0])
+            flags.append([tick, "N", TAP, draw(st.sampled_from([0, 0, 7]))])
         if flags and mask != 0 and draw(st.integers(0, 3)) == 0:
             # flag lines between / before lane lines
             for f in flags:
